@@ -34,6 +34,20 @@ TRUSTED_BASE = [
     'register/close/_monitor and releases one at a time) and its event log',
     'translate/donecb_skeleton.py classification of bytecodes into shared accesses vs frame-local instructions '
     '(frame-local instructions commute with other threads; spot-checked by the every-opcode mode)',
+    'translate/donecb_skeleton.py + translate/donecb_ast.py, `ast` half (C18_skelfacts_*): every method of '
+    'ThreadDoneCallback as a statement tree (DoneCb/SkelSyntax.v; fail-closed on unknown constructs, class bases, '
+    'decorators, class-level and module-level statements, extra methods). DoneCb/SkelFacts.v PINS the control shape of '
+    '__init__/register/close/_monitor with a matcher and interprets the leaf expressions over the model state; it proves '
+    'for all states that the steps so computed are Model.step_mon/step_reg/step_closer and that __init__ denotes Model.init. '
+    'TRUSTED there: (a) CPython compiles the ast to the bytecode of the `dis` half faithfully (polarity of POP_JUMP_IF_*, '
+    'short-circuit `and`, inlined set comprehension; the two halves read the same file but are not cross-checked '
+    'instruction by instruction); (b) the correspondence between the pinned shape and the program counters of the model '
+    '(which access of the `dis` skeleton belongs to which leaf) is by construction of step_mon_gen, not derived; '
+    '(c) the meaning given to the leaves: truth value of a set = non-empty, `-` on builtin sets = difference into a NEW '
+    'object, set()/Lock() = new empty/unlocked objects, `except BaseException` catches everything the callback raises, '
+    'Thread.is_alive() false = ended, join() without arguments returns only after the thread ended, daemon/target keywords '
+    'of ExcThread as for threading.Thread; (d) time.sleep(self._interval) and the interval value are recorded, not '
+    'interpreted (no timing in the model); `if self._done:` is interpreted with the callback given',
     'translate/taskdone_funs.py (ast -> Gen/TaskDoneFuns.v: every method of TaskDoneCallback, ThreadTaskDoneCallback, '
     'ExcThread and current_task_or_thread as a statement AST; fail-closed) and the semantics DoneCb/TaskInterp.v gives that '
     'AST (method lookup by name, frames, time.sleep as the suspension point of the close methods, asyncio '
@@ -1047,6 +1061,38 @@ def run_thread_api_cases() -> list:
     obj.close()
     if got2 != ['verif-dropped']:
         bad.append(('thread:callback-lost-for-unreferenced-thread', f'a registered thread whose references were dropped by the caller ended; callbacks invoked for {got2}'))
+    # (d) a close() that arrives while an earlier close() is still waiting (two closers; or the worker of a cancelled
+    # `aclose()` left inside close()): EVERY close returns only after the registered thread has ended and was called back
+    got3 = []
+    obj = ThreadDoneCallback(done=lambda t: got3.append(t.name), interval=0.001)
+    ev3 = threading.Event()
+    th3 = threading.Thread(target=ev3.wait, args=(10,), name='verif-slow', daemon=True)
+    th3.start()
+    obj.register(th3)
+    returned = {}
+
+    def closer(k):
+        try:
+            obj.close()
+            returned[k] = (th3.is_alive(), list(got3))
+        except BaseException as e:      # noqa
+            returned[k] = ('raised', repr(e))
+
+    c1 = threading.Thread(target=closer, args=(1,), daemon=True)
+    c1.start()
+    time.sleep(0.05)
+    c2 = threading.Thread(target=closer, args=(2,), daemon=True)
+    c2.start()
+    c2.join(0.3)
+    early = dict(returned)
+    ev3.set()
+    c1.join(5); c2.join(5)
+    for k in (1, 2):
+        if k in early:
+            bad.append(('thread:close-returned-before-registered-thread-ended',
+                        f'close() number {k} (issued while {"no" if k == 1 else "an earlier"} close() was waiting) returned while the registered thread was alive: {early[k]}'))
+        elif returned.get(k) != (False, ['verif-slow']):
+            bad.append(('thread:overlapping-close', f'close() number {k}: (thread alive, callbacks so far) at its return = {returned.get(k)}'))
     return bad
 
 
